@@ -7,14 +7,19 @@ from .term import T, mk
 UNDEF = tm.GARBAGE
 
 
+STATE_LEAVES = {}      # state symbol -> Leaf (init / next are used for inductive length classes)
+
+
 class Leaf(object):
-    __slots__ = ("sym", "init", "kind", "sibling")
+    __slots__ = ("sym", "init", "kind", "sibling", "next")
 
     def __init__(self, sym, init, kind, sibling=None):
         self.sym = sym
         self.init = init
         self.kind = kind          # 'val' | 'pres'
         self.sibling = sibling    # for an emap value leaf: the Leaf of its presence flag
+        self.next = None
+        STATE_LEAVES[sym] = self
 
 
 def structured_state(init, leaves, depth=0):
@@ -176,6 +181,7 @@ class Classifier(object):
 
     def leaf(self, leaf, n):
         s = leaf.sym
+        leaf.next = n
         if n is s:
             return leaf.init
         if leaf.kind == "pres":
